@@ -106,20 +106,20 @@ func Render(t *Stmt) *Rendered {
 
 // Obs is what the real code did with one text.
 type Obs struct {
-	ParseOk     bool   `json:"parseOk"`
-	ParseErr    string `json:"parseErr"`
-	Compiled    bool   `json:"compiled"` // compile was attempted
-	CompileOk   bool   `json:"compileOk"`
-	CompileErr  string `json:"compileErr"`
-	Panic       string `json:"panic"`
-	Located     bool   `json:"located"` // the error text carries name:line:col
-	ErrLine     int    `json:"errLine"`
-	ErrPath     string `json:"errPath"` // path of the statement starting at ErrLine ("-" if none)
-	ErrPathSeq  []int  `json:"errPathSeq"`
-	ErrAtKw     string `json:"errAtKw"`
+	ParseOk     bool     `json:"parseOk"`
+	ParseErr    string   `json:"parseErr"`
+	Compiled    bool     `json:"compiled"` // compile was attempted
+	CompileOk   bool     `json:"compileOk"`
+	CompileErr  string   `json:"compileErr"`
+	Panic       string   `json:"panic"`
+	Located     bool     `json:"located"` // the error text carries name:line:col
+	ErrLine     int      `json:"errLine"`
+	ErrPath     string   `json:"errPath"` // path of the statement starting at ErrLine ("-" if none)
+	ErrPathSeq  []int    `json:"errPathSeq"`
+	ErrAtKw     string   `json:"errAtKw"`
 	Named       []string `json:"named"` // statement keywords named by the error text
-	RootKw      string `json:"rootKw"`
-	NumChildren int    `json:"numChildren"`
+	RootKw      string   `json:"rootKw"`
+	NumChildren int      `json:"numChildren"`
 }
 
 const ParseName = "probe"
@@ -180,14 +180,66 @@ func nilCard(parse.NodeType) map[parse.NodeType]parse.Cardinality {
 	return map[parse.NodeType]parse.Cardinality{}
 }
 
-func doParse(text string) (t *parse.Tree, err error, pan string) {
+// Interners is one shared pair of interners, as compile.ParseModules keeps across the files it parses.
+type Interners struct {
+	S *parse.StringInterner
+	A *parse.ArgInterner
+}
+
+func NewInterners() *Interners {
+	return &Interners{S: parse.NewStringInterner(), A: parse.NewArgInterner()}
+}
+
+func doParse(text string, in *Interners) (t *parse.Tree, err error, pan string) {
 	defer func() {
 		if r := recover(); r != nil {
 			pan = fmt.Sprint(r)
 		}
 	}()
-	t, err = parse.Parse(ParseName, text, nilCard)
+	if in != nil {
+		t, err = parse.ParseWithInterners(ParseName, text, nilCard, in.S, in.A)
+	} else {
+		t, err = parse.Parse(ParseName, text, nilCard)
+	}
 	return
+}
+
+// Directive: the text must contain N copies in total of the child at Path (placed directly after it);
+// with Rename the copies get distinct arguments.
+type Directive struct {
+	Path   []int `json:"path"`
+	N      int   `json:"n"`
+	Rename bool  `json:"rename"`
+}
+
+// Expand performs the directives of a large-multiplicity probe (see YangStmtTpl.tla Replicate).
+func Expand(t *Stmt, ds []Directive) *Stmt {
+	by := map[string]Directive{}
+	for _, d := range ds {
+		by[PathKey(d.Path)] = d
+	}
+	var rec func(s *Stmt, path []int) *Stmt
+	rec = func(s *Stmt, path []int) *Stmt {
+		c := &Stmt{Kw: s.Kw, Arg: s.Arg, Subs: []*Stmt{}}
+		for i, k := range s.Subs {
+			kp := append(append([]int{}, path...), i+1)
+			kid := rec(k, kp)
+			d, ok := by[PathKey(kp)]
+			if !ok {
+				c.Subs = append(c.Subs, kid)
+				continue
+			}
+			for j := 1; j <= d.N; j++ {
+				cp := kid
+				if d.Rename && j > 1 {
+					cp = &Stmt{Kw: kid.Kw, Arg: kid.Arg + "x" + strconv.Itoa(j), Subs: kid.Subs}
+				}
+				c.Subs = append(c.Subs, cp)
+			}
+		}
+		return c
+	}
+	return rec(t, nil)
 }
 
 func doCompile(trees map[string]*parse.Tree) (err error, pan string) {
@@ -206,11 +258,16 @@ var Companions = map[string]string{}
 
 // Run parses the text and, if parsing succeeded and wantCompile, compiles it.
 func Run(r *Rendered, wantCompile bool, companions []string) Obs {
+	return RunWith(r, wantCompile, companions, nil)
+}
+
+// RunWith is Run with the parse done through a shared pair of interners (nil: fresh ones).
+func RunWith(r *Rendered, wantCompile bool, companions []string, in *Interners) Obs {
 	var o Obs
 	o.ErrPath = "-"
 	o.ErrPathSeq = []int{}
 	o.Named = []string{}
-	t, err, pan := doParse(r.Text)
+	t, err, pan := doParse(r.Text, in)
 	if pan != "" {
 		o.Panic = "parse: " + pan
 		return o
